@@ -118,6 +118,7 @@ type schemaBuilder struct {
 	annotated  bool
 	discovered []*entityDecl
 	postDecls  []*entityDecl
+	embedding  map[string]bool // embedded types being expanded: structs may embed each other through pointers
 }
 
 func (s *schemaBuilder) inferNames() (goName string, name string) {
@@ -965,6 +966,16 @@ func (s *schemaBuilder) buildEmbedded(tpe types.Type, schema *spec.Schema, seen 
 		return s.buildEmbedded(ftpe.Elem(), schema, seen)
 	case *types.Named:
 		debugLog("embedded named type: %T", ftpe.Underlying())
+		key := ftpe.String()
+		if s.embedding[key] {
+			// already being expanded further up: its fields are promoted there
+			return nil
+		}
+		if s.embedding == nil {
+			s.embedding = make(map[string]bool)
+		}
+		s.embedding[key] = true
+		defer delete(s.embedding, key)
 		switch utpe := ftpe.Underlying().(type) {
 		case *types.Struct:
 			decl, found := s.ctx.FindModel(ftpe.Obj().Pkg().Path(), ftpe.Obj().Name())
